@@ -106,7 +106,7 @@ type DecArshalPlan struct {
 	PreWarm    int           `json:"prewarm"` // earlier pooled calls (history for C03/C18 flavours)
 	FromFunc   bool          `json:"unmarshal_from_func_for_any"`
 	RejectFunc bool          `json:"functions_that_fail_before_reading,omitempty"` // with FromFunc: functions for *float64/*string/*bool that return an error without touching the decoder
-	TypedType  string        `json:"typed_target,omitempty"` // a reflect-built random type; the input is Marshal of a random value of it
+	TypedType  string        `json:"typed_target,omitempty"`                       // a reflect-built random type; the input is Marshal of a random value of it
 
 	typ      reflect.Type
 	Legacy   bool  `json:"v1_default_options"` // DefaultOptionsV1 (legacy error semantics: semantic errors are not fatal)
@@ -140,7 +140,7 @@ func (sc *DecArshal) plan(t *core.Tape, env *Env) *DecArshalPlan {
 	}
 	p.Target = ps.Draw(len(decTargets))
 	p.TargetName = decTargets[p.Target].Name
-	p.Legacy = sc.Mode != "c03" && ps.Chance(1, 5)
+	p.Legacy = ps.Chance(1, 5) // (c03: the meaning check is skipped under v1 semantics, route agreement is not)
 	p.FromFunc = sc.Mode != "c03" && ps.Chance(1, 6)
 	p.RejectFunc = p.FromFunc && ps.Chance(1, 3)
 	is := t.S("input")
@@ -548,6 +548,15 @@ func (sc *DecArshal) Run(t *core.Tape, env *Env) (any, []core.Violation) {
 			if werr.Kind == "" && !reflect.DeepEqual(got, want) {
 				if report("C05", "C05/unmarshaldecode-stream-vs-slice/value", tgt.Name, "value %d differs: stream %s ; slice %s", k, render(got), render(want)) {
 					return p, viols
+				}
+			}
+			switch tgt.Name {
+			case "any", "map[string]any", "[]any", "named-any":
+				// "the same tree is obtained ... from []byte, from a stream"
+				if (gerr.Kind == "") != (werr.Kind == "") || (werr.Kind == "" && !reflect.DeepEqual(got, want)) {
+					if report("C03", "C03/route-disagreement", "UnmarshalDecode-stream/"+tgt.Name, "value %d of the stream: over a chunked reader %s err=%v ; over the whole slice %s err=%v", k, render(got), gerr, render(want), werr) {
+						return p, viols
+					}
 				}
 			}
 			// "equals Unmarshal of each value in turn"
